@@ -94,7 +94,7 @@ TEXTS = {
   rule="Case = one program (seed, cipher, FEC, clients, goroutines, calls); non-trivial = >=1 pair of different methods co-scheduled within 1 ms on one session during it."),
  "C15": dict(
   level_text=("Close scripts: point in a generated lossy history (idle, mid-transfer, full queues with a stalled reader, blocked callers, peers the application never accepts) x permutation of {client session, server session, listener, client socket, server socket} x gaps. "
-              "After 10 virtual minutes: census of goroutines still belonging to the bubble (stacks name the leaked function), no scheduler callback pending, no application call blocked. Pool sanitizer (hook): quarantine+poison detects double recycle and write-after-recycle; LIFO reuse makes a stale owner bleed into the next packet, caught by C01's content oracle and the wire decoder."),
+              "After 10 virtual minutes: census of goroutines still belonging to the bubble (stacks name the leaked function), no scheduler callback pending, no application call blocked. Pool sanitizer (hook): quarantine+poison detects double recycle and write-after-recycle; LIFO reuse makes a stale owner bleed into the next packet, caught by C01's content oracle and the wire decoder. TestC15PoolAutoTune runs the FEC decoder's auto-tune path (differing ratios incl. same total / different split, with loss) under the quarantine sanitizer."),
   level_note=E2 + ". Pool sanitizer = tag-guarded call-outs in bufferpool.go; read-after-recycle is only visible when the poisoned bytes reach the wire or the reader.",
   rule="Close cases non-trivial = closed mid-transfer, with blocked callers, or with un-accepted sessions; pool cases = >=1000 Get calls and >=1 retransmission."),
  "C16": dict(
@@ -115,7 +115,7 @@ TEXTS = {
  "C19": dict(
   level_text=("FEC sessions of every cipher/MTU: SendOOB with lengths {0,1,6,7,100,max-1,max,max+1,max+100}, bursts up to 3000 calls against the 2048-deep queue, handlers on both/one/neither side, replaced or cleared mid-run, interleaved with generated lossy stream traffic. "
               "Tagged payloads: every handler argument must be a payload its peer sent, delivered at most as often as the network delivered its datagram; oversize refused with nothing on the wire; GetOOBMaxSize equals the documented layout; the wire decoder checks on every datagram that OOB consumes no FEC id, parity is RS over the data packets only, size <= MTU; the stream completes (bounded liveness). Sessions without FEC refuse all three calls."),
-  level_note=E2 + ". 'Never to another session' is covered structurally by C11's listener demultiplexing by address; OOB cross-delivery between two sessions of one listener is not generated.",
+  level_note=E2 + ". TestC19ForeignConvOOB injects, at the listener and from the owning address, a correctly sealed OOB packet that carries ANOTHER conversation id (late packet of a previous incarnation / forgery) with payload lengths 0..60: it must never reach the handler of the session that owns the address (ignoring it or starting a new conversation are both accepted).",
   rule="Non-trivial = >=1 OOB datagram emitted between two data packets of a FEC group AND >=1 OOB lost AND >=1 data packet recovered by FEC."),
  "C20": dict(
   level_text=("Every operation sequence up to a depth bound from ~210 initial layouts is executed against the real RingBuffer and "
